@@ -550,6 +550,9 @@ fn rows_of_batches(top: &[S], batches: &[RecordBatch]) -> Result<Vec<Vec<V>>, St
 }
 fn err_class<E: std::fmt::Debug>(e: E) -> String {
     let d = format!("{:?}", e);
+    if std::env::var("VERIF_TRACE").is_ok() {
+        eprintln!("  error: {}", d.chars().take(400).collect::<String>());
+    }
     let name: String = d.chars().take_while(|c| c.is_ascii_alphanumeric()).collect();
     format!("ERR:{}", name)
 }
@@ -1061,10 +1064,23 @@ fn main() {
         let mut rng = Rng::new(args.seed ^ 0xC17A);
         let n = n_cases(&args, 1500, 40000);
         for _ in 0..n {
-            let (line, tags) = gen_case(&mut rng);
-            if std::env::var("VERIF_TRACE").is_ok() { eprintln!("{}", line); }
-            let a = run_case(&line, &mut sink, &tags);
-            sink.case(line, a, &tags);
+            // the property quantifies over batches the writer accepts: a schema the writer refuses
+            // at construction time (SchemaError / NYI / InvalidArgument) is counted and re-drawn
+            let mut tries = 0;
+            loop {
+                let (line, tags) = gen_case(&mut rng);
+                if std::env::var("VERIF_TRACE").is_ok() {
+                    eprintln!("{}", line);
+                }
+                let a = run_case(&line, &mut sink, &tags);
+                tries += 1;
+                if (a == "ERR:SchemaError" || a == "ERR:NYI" || a == "ERR:InvalidArgument") && tries < 50 {
+                    sink.count(&format!("redrawn:writer-rejects:{}", line.split(' ').nth(1).unwrap_or("")));
+                    continue;
+                }
+                sink.case(line, a, &tags);
+                break;
+            }
         }
     }
     sink.finish();
